@@ -5,15 +5,12 @@ import (
 	"encoding/hex"
 	"encoding/json"
 	"fmt"
-	"time"
 
 	"github.com/pokt-network/pocket-core/codec"
 	sdk "github.com/pokt-network/pocket-core/types"
 	nodesTypes "github.com/pokt-network/pocket-core/x/nodes/types"
 	pc "github.com/pokt-network/pocket-core/x/pocketcore/types"
 	abci "github.com/tendermint/tendermint/abci/types"
-	tmcfg "github.com/tendermint/tendermint/config"
-	tmtypes "github.com/tendermint/tendermint/types"
 
 	"verifharness/chainsim"
 	"verifharness/internal/hx"
@@ -79,42 +76,10 @@ func claimsConfig(seed int64, p chainParams) chainsim.Config {
 	}
 }
 
-// begin starts the next block.  chainsim.Sim.BeginBlock hands the application a header whose
-// LastBlockId is the hash of the block being begun (it reads Sim.LastBlockID after saveBlock
-// has advanced it) where Tendermint passes the hash of the PREVIOUS block; the claims code
-// reads exactly that field (Context.GetPrevBlockHash at the proof height).  Work-around in
-// this package only: the block is saved here first, byte for byte as chainsim.saveBlock
-// does, so that chainsim's own saveBlock is a no-op and LastBlockID still names block h-1
-// while the header is built; it is advanced afterwards.
+// begin starts the next block (header.LastBlockId = hash of the previous block, which is what
+// Context.GetPrevBlockHash returns at the proof height).
 func begin(s *chainsim.Sim) abci.ResponseBeginBlock {
-	h := s.Height + 1
-	t := chainsim.T0.Add(time.Duration(h) * chainsim.BlockInterval)
-	votes := s.Votes(nil)
-	var prop []byte
-	if len(votes) > 0 {
-		prop = votes[0].Validator.Address
-	}
-	var id tmtypes.BlockID
-	if s.BS.Height() < h {
-		blk := tmtypes.MakeBlock(h, nil, &tmtypes.Commit{}, nil)
-		blk.ChainID = s.Cfg.ChainID
-		blk.Time = t
-		blk.LastBlockID = s.LastBlockID
-		blk.AppHash = s.LastHash
-		blk.ProposerAddress = prop
-		blk.ConsensusHash = []byte("chainsim-consensus-hash-32bytes!")
-		blk.ValidatorsHash = blk.ConsensusHash
-		blk.NextValidatorsHash = blk.ConsensusHash
-		ps := blk.MakePartSet(65536)
-		id = tmtypes.BlockID{Hash: blk.Hash(), PartsHeader: ps.Header()}
-		s.BS.SaveBlock(blk, ps, tmtypes.NewCommit(id, nil))
-	} else {
-		m := s.BS.LoadBlockMeta(h)
-		id = m.BlockID
-	}
-	res := s.BeginBlock(chainsim.BlockOpts{})
-	s.LastBlockID = id
-	return res
+	return s.BeginBlock(chainsim.BlockOpts{})
 }
 
 // block runs one whole block with the given transactions.
@@ -129,16 +94,10 @@ func block(s *chainsim.Sim, txs ...[]byte) []abci.ResponseDeliverTx {
 	return out
 }
 
-// newSim builds a fresh chain.  Process-global caches of the real code that are keyed
-// by height only are reset, and the node-local session cache (which a running node
-// always has) is created in memory.
+// newSim builds a fresh chain (chainsim resets the process-global validators-by-chain cache
+// and provides the node-local session cache the claim handler reads).
 func newSim(cfg chainsim.Config) *chainsim.Sim {
-	sdk.VbCCache = sdk.NewCache(1200)
-	s := chainsim.New(cfg)
-	cs := &pc.CacheStorage{}
-	cs.Init("", "", tmcfg.DefaultLevelDBOpts(), 100, true)
-	pc.GlobalSessionCache = cs
-	return s
+	return chainsim.New(cfg)
 }
 
 // ---- projection of the fields this module owns (chainsim's projection + claim roots)
